@@ -1,7 +1,7 @@
 PROP_ID = "C10"
 PROP = {
     "level": "fault_enumeration",
-    "assumptions": ["a process stop is modelled as: the goroutine performing the chosen store write never returns from it, nothing later reaches the stores, the instance is discarded; memory stores play the disk", "the same absolute messages are delivered in the crash-free reference run and in the crash run", "mirror part only in this unit (state machine / engine restarts: smsim and netsim units)", "state-machine unit: vote saves are not used as crash points (a restart in a round with a recorded vote is the listed finding C02-RESIGN); the rejoin clause is evaluated only when the run without stop ends in sync with the harness mirror and both mirror histories are equal"],
+    "assumptions": ["a process stop is modelled as: the goroutine performing the chosen store write never returns from it, nothing later reaches the stores, the instance is discarded; memory stores play the disk", "the same absolute messages are delivered in the crash-free reference run and in the crash run", "mirror part only in this unit (state machine / engine restarts: smsim and netsim units)", "state-machine unit: vote saves are not used as crash points (a restart in a round with a recorded vote is the listed finding C02-RESIGN); the rejoin clause is evaluated only when the run without stop ends in sync with the harness mirror and both mirror histories are equal", "engine unit (netsim): restarts are quiescent stop + tmengine.New on the same memory stores (no store-write crash points at engine level)"],
     "units": [{
         "bin": "mirrorsim", "pkg": "tm/tmengine/internal/tmmirror", "inject": [("mirrorsim", "tm/tmengine/internal/tmmirror")],
         "tests": [
@@ -13,12 +13,18 @@ PROP = {
         "tests": [
             {"name": "TestVerifC10SMRestart", "quick": 4000, "thorough": 160000, "shards": {"quick": 4, "thorough": 16}, "env": {"GOMAXPROCS": "2"}},
         ],
+    }, {
+        # engine half: whole tmengine.Engine instances restarted inside network schedules (harness/netsim, shared with C03)
+        "bin": "netsim", "pkg": "tm/tmengine", "inject": [("netsim", "tm/tmengine")],
+        "tests": [
+            {"name": "TestVerifC10EngineRestart", "quick": 150, "thorough": 8000, "shards": {"thorough": 16}, "shrinktime": "60s", "salt": 7, "env": {"GOMAXPROCS": "2"}},
+        ],
     }],
 }
 CLAIM = {
     "engine": "mirrorsim",
     "technique": "stateful property-based testing with injected crash points (rapid histories x store-write index; thorough tier enumerates every write index of each history) against a crash-free reference run",
-    "text": "For generated message histories the mirror is stopped after an individual store write (or after a handled message), restarted on the same stores, the interrupted messages are redelivered and the rest of the history follows. Oracle: restart succeeds; positions are not behind the durably recorded ones; the committed chain is unchanged; every persisted proposal and vote of the resumed rounds is present again and verifies (crypto/ed25519); at the end the committed chain and voting position equal those of the crash-free run of the same messages. State-machine unit (smsim): generated state-machine histories (as for C02, incl. quiescent restarts) are run once without a stop and then with the machine dying inside one of its own store writes (SaveProposedHeaderAction, SaveFinalization, SetStateMachineHeightRound; quick: a drawn write, thorough: every such write of the history), a new StateMachine is built on the same action/finalization/state-machine stores, its entrance is answered as the mirror would, and the rest of the history follows. Oracle: start-up succeeds; the first entrance is exactly the round the durable state implies ((h+1, 0) once SaveFinalization(h) persisted, whatever round decided h and whether or not the new position had been written), never below the stored position; every later entrance was recorded before it was requested; no finalize request for a height whose finalization is stored, no overwrite attempt, stored finalizations byte-identical afterwards; and when the mirror histories of both runs coincide the machine ends, after redelivery, at the position of the run without the stop.",
+    "text": "For generated message histories the mirror is stopped after an individual store write (or after a handled message), restarted on the same stores, the interrupted messages are redelivered and the rest of the history follows. Oracle: restart succeeds; positions are not behind the durably recorded ones; the committed chain is unchanged; every persisted proposal and vote of the resumed rounds is present again and verifies (crypto/ed25519); at the end the committed chain and voting position equal those of the crash-free run of the same messages. State-machine unit (smsim): generated state-machine histories (as for C02, incl. quiescent restarts) are run once without a stop and then with the machine dying inside one of its own store writes (SaveProposedHeaderAction, SaveFinalization, SetStateMachineHeightRound; quick: a drawn write, thorough: every such write of the history), a new StateMachine is built on the same action/finalization/state-machine stores, its entrance is answered as the mirror would, and the rest of the history follows. Oracle: start-up succeeds; the first entrance is exactly the round the durable state implies ((h+1, 0) once SaveFinalization(h) persisted, whatever round decided h and whether or not the new position had been written), never below the stored position; every later entrance was recorded before it was requested; no finalize request for a height whose finalization is stored, no overwrite attempt, stored finalizations byte-identical afterwards; and when the mirror histories of both runs coincide the machine ends, after redelivery, at the position of the run without the stop. Engine unit (netsim): whole tmengine.Engine instances are stopped and rebuilt on their stores inside generated network schedules (biased to restarts within the initial height, also right after the first commit, on chains whose InitChain overrode the genesis document); oracle: start-up succeeds, mirror position / committed headers / stored finalizations are not behind or different from what was durable before the stop, finalize requests stay gap-free (a repeat only as first request of the new incarnation, same hash), the restarted node proposes headers with the prescribed validator sets, is offered every acceptable stored proposal, and its decided prevote reaches its round store (no loss of participation), plus the C03 agreement and certificate clauses.",
     "design_ref": "DESIGN.md section 4 C10, section 3.1",
     "note": "Fault enumeration over store-write indices of generated histories (thorough: all of them per history); finalization stores and the state machine are covered by the smsim / netsim units where present.",
 }
